@@ -40,6 +40,7 @@ func init() {
 			{"C18.R6", "q", "shared: hint files of a chunk removed by glob", c18r6},
 			{"C02.R10", "q", "identity-carrying constructors and the start-up index file list", c02r10},
 			{"C02.R11", "q", "data file naming: one producer, own index, matching directory scans", c02r11},
+			{"C04.L1", "q", "shared: version check, append and index update are one critical section", c04l1},
 		},
 	})
 }
